@@ -1,12 +1,12 @@
 CONSTANTS
   Fam = "mac"
   NM = 1
-  KindSet = {"obj", "f0", "f1", "f2", "fv", "f1v"}
+  KindSet = {"f1", "fv"}
   MaxBody = 3
-  MaxInv = 6
-  BodyAlpha = {"x", "y", "V", "#x", "#y", "#V", "#", "##", "f", "a", "1"}
-  InvAlpha = {"f", "a", "(", ")", ","}
-  VarWs = FALSE
+  MaxInv = 5
+  BodyAlpha = {"#x", "#V", "x", "a"}
+  InvAlpha = {"f", "a", "(", ")", ",", "S2", "C1"}
+  VarWs = TRUE
   InvHead = TRUE
   InvBal = TRUE
   NameScheme = 1
